@@ -165,12 +165,12 @@ type FlowResult struct {
 	Returns []ReturnState
 	Hazards []Hazard
 	// Summaries over non-error returns
-	Split                    bool
-	MustAll, MustT, MustF    map[string]bool
-	MayAll, MayT, MayF       map[string]map[string]bool // field -> tag set (tags in callee frame)
-	AnyNonErrorReturn        bool
-	WritesAnything           bool
-	size                     int
+	Split                 bool
+	MustAll, MustT, MustF map[string]bool
+	MayAll, MayT, MayF    map[string]map[string]bool // field -> tag set (tags in callee frame)
+	AnyNonErrorReturn     bool
+	WritesAnything        bool
+	size                  int
 }
 
 // flow returns the memoised result; the global fixpoint is driven by
@@ -242,14 +242,14 @@ func expand(universe []string, field string) []string {
 // ---------------------------------------------------------------------------
 
 type flowCtx struct {
-	w     *World
-	k     flowKey
-	f     *ssa.Function
-	prov  *provCtx
-	univ  []string
-	dead  map[*ssa.BasicBlock]bool
-	deadE map[[2]int]bool // (block index, succ position)
-	res   *FlowResult
+	w      *World
+	k      flowKey
+	f      *ssa.Function
+	prov   *provCtx
+	univ   []string
+	dead   map[*ssa.BasicBlock]bool
+	deadE  map[[2]int]bool // (block index, succ position)
+	res    *FlowResult
 	ueSeen map[string]bool
 	hzSeen map[string]bool
 }
